@@ -10,7 +10,11 @@ KWNAMES = ["left", "right", "width", "x", "flag", "ignore_case", "truex", "True_
            # identifiers that merely look like the boolean words (only `true/True/false/False` are values)
            "TRUE", "FALSE", "tRue", "fALSE", "TrUe", "falsE", "Truee", "fals"]
 CATS = [None, None, "Core", "text", "C_1"]
-TEXT_POOL = list("abc XYZ09.,-_()=;:!?'\"\\{}|éЖ中 ")
+TEXT_POOL = list("abc XYZ09.,-_()=;:!?'\"\\{}|éЖ中 ") + [
+    # text that is not in a Unicode normal form must arrive as written: combining marks after a base letter, characters
+    # with a singleton canonical decomposition (ANGSTROM SIGN, OHM SIGN), compatibility forms (ligature, full-width), a
+    # decomposed Hangul syllable
+    "\u0301", "e\u0301", "\u212b", "\u2126", "\ufb01", "\uff21", "\u1100\u1161", "\u00e9"]
 
 
 def gen_text(rng, maxlen=6):
